@@ -8,6 +8,21 @@ Open Scope N_scope.
 Section Relayout.
   Variable ind : bytes.
 
+  Lemma render_elems_cons_gen w1 c w2 es :
+    render_elems (ECons w1 c w2 es) = w1 ++ render c ++ w2 ++ match es with ENil => [] | _ => 44 :: render_elems es end.
+  Proof. destruct es; cbn [render_elems]; rewrite ?app_nil_r; reflexivity. Qed.
+  Lemma render_members_cons_gen w1 k w2 w3 c w4 ms :
+    render_members (MCons w1 k w2 w3 c w4 ms)
+    = w1 ++ render_str k ++ w2 ++ 58 :: w3 ++ render c ++ w4 ++ match ms with MNil => [] | _ => 44 :: render_members ms end.
+  Proof. destruct ms; cbn [render_members]; rewrite ?app_nil_r; reflexivity. Qed.
+  Lemma layout_elems_cons_gen d w1 c w2 es :
+    layout_elems ind d (ECons w1 c w2 es) = nl ind d ++ layout ind d c ++ match es with ENil => [] | _ => 44 :: layout_elems ind d es end.
+  Proof. destruct es; cbn [layout_elems]; rewrite ?app_nil_r; reflexivity. Qed.
+  Lemma layout_members_cons_gen d w1 k w2 w3 c w4 ms :
+    layout_members ind d (MCons w1 k w2 w3 c w4 ms)
+    = nl ind d ++ render_str k ++ [58; 32] ++ layout ind d c ++ match ms with MNil => [] | _ => 44 :: layout_members ind d ms end.
+  Proof. destruct ms; cbn [layout_members]; rewrite ?app_nil_r; reflexivity. Qed.
+
   Lemma layout_relayout :
     (forall c d, render (relayout ind d c) = layout ind d c)
     /\ (forall es d, match es with ENil => True | _ => render_elems (relayout_elems ind d es) = layout_elems ind d es ++ nl ind (pred d) end)
@@ -30,21 +45,26 @@ Section Relayout.
         with (123 :: render_members (relayout_members ind (S d) (MCons w1 k w2 w3 c w4 rest)) ++ [125]).
       rewrite IH. cbn [pred]. rewrite <- app_assoc. reflexivity.
     - intros d. exact I.
-    - intros w1 c IHc w2 rest IHr d. specialize (IHc d). specialize (IHr d). cbn [relayout_elems].
+    - intros w1 c IHc w2 rest IHr d. specialize (IHc d). specialize (IHr d).
+      change (relayout_elems ind d (ECons w1 c w2 rest))
+        with (ECons (nl ind d) (relayout ind d c) (match rest with ENil => nl ind (pred d) | _ => [] end) (relayout_elems ind d rest)).
+      rewrite render_elems_cons_gen, layout_elems_cons_gen, IHc.
       destruct rest as [|w1' c' w2' rest'].
-      + cbn [relayout_elems render_elems layout_elems]. rewrite IHc, <- app_assoc. reflexivity.
-      + set (r' := relayout_elems ind d (ECons w1' c' w2' rest')) in *.
-        assert (Hr : exists a b c0 r0, r' = ECons a b c0 r0) by (unfold r'; cbn [relayout_elems]; eauto).
-        destruct Hr as [a [b [c0 [r0 Er]]]]. rewrite Er. cbn [render_elems]. rewrite <- Er, IHr, IHc.
-        cbn [layout_elems app]. rewrite <- !app_assoc. cbn [app]. reflexivity.
+      + cbn [relayout_elems]. rewrite !app_nil_r, <- app_assoc. reflexivity.
+      + rewrite <- !app_assoc. f_equal. f_equal. cbn [app].
+        change (match relayout_elems ind d (ECons w1' c' w2' rest') with ENil => [] | _ => 44 :: render_elems (relayout_elems ind d (ECons w1' c' w2' rest')) end)
+          with (44 :: render_elems (relayout_elems ind d (ECons w1' c' w2' rest'))).
+        rewrite IHr. reflexivity.
     - intros d. exact I.
-    - intros w1 k w2 w3 c IHc w4 rest IHr d. specialize (IHc d). specialize (IHr d). cbn [relayout_members].
+    - intros w1 k w2 w3 c IHc w4 rest IHr d. specialize (IHc d). specialize (IHr d).
+      change (relayout_members ind d (MCons w1 k w2 w3 c w4 rest))
+        with (MCons (nl ind d) k [] [32] (relayout ind d c) (match rest with MNil => nl ind (pred d) | _ => [] end) (relayout_members ind d rest)).
+      rewrite render_members_cons_gen, layout_members_cons_gen, IHc.
       destruct rest as [|w1' k' w2' w3' c' w4' rest'].
-      + cbn [relayout_members render_members layout_members]. rewrite IHc. cbn [app]. rewrite <- !app_assoc. reflexivity.
-      + set (r' := relayout_members ind d (MCons w1' k' w2' w3' c' w4' rest')) in *.
-        assert (Hr : exists a b c0 d0 e0 f0 r0, r' = MCons a b c0 d0 e0 f0 r0) by (unfold r'; cbn [relayout_members]; do 7 eexists; reflexivity).
-        destruct Hr as [a [b [c0 [d0 [e0 [f0 [r0 Er]]]]]]]. rewrite Er. cbn [render_members]. rewrite <- Er, IHr, IHc.
-        cbn [layout_members app]. rewrite <- !app_assoc. cbn [app]. reflexivity.
+      + cbn [relayout_members app]. rewrite !app_nil_r, <- !app_assoc. reflexivity.
+      + change (match relayout_members ind d (MCons w1' k' w2' w3' c' w4' rest') with MNil => [] | _ => 44 :: render_members (relayout_members ind d (MCons w1' k' w2' w3' c' w4' rest')) end)
+          with (44 :: render_members (relayout_members ind d (MCons w1' k' w2' w3' c' w4' rest'))).
+        rewrite IHr. cbn [app]. repeat (rewrite <- app_assoc; cbn [app]). reflexivity.
   Qed.
 
   Theorem layout_is_render c d : layout ind d c = render (relayout ind d c).
@@ -83,8 +103,9 @@ Section Relayout.
       apply andb_true_iff in H as [H H4]. apply andb_true_iff in H as [H H3]. apply andb_true_iff in H as [H1 H2].
       rewrite (IHc _ H2), (IHr _ H4), ws_ok_nl. destruct rest; [rewrite ws_ok_nl|]; reflexivity.
     - intros w1 k w2 w3 c IHc w4 rest IHr d H. cbn [relayout_members wfb_members] in *.
-      repeat (apply andb_true_iff in H as [H ?]).
-      rewrite (IHc _ H2), (IHr _ H0), ws_ok_nl, H4. destruct rest; [rewrite ws_ok_nl|]; reflexivity.
+      apply andb_true_iff in H as [H Hg]. apply andb_true_iff in H as [H Hf]. apply andb_true_iff in H as [H He].
+      apply andb_true_iff in H as [H Hd]. apply andb_true_iff in H as [H Hc]. apply andb_true_iff in H as [Ha Hb].
+      rewrite (IHc _ He), (IHr _ Hg), ws_ok_nl, Hb. destruct rest; [rewrite ws_ok_nl|]; reflexivity.
   Qed.
 End Relayout.
 
